@@ -142,7 +142,7 @@ func ruleC16E2(r *Run, le *LockEngine) {
 			kl := p.Leaves(reg.Key, provOpts{})
 			okKey := hasLeaf(kl, "field:/message.UpstreamCall.CallID")
 			h := le.HeldAt(reg)
-			okLock := h[fn.Params[0].Name()+".upstreamCallAckMu"] == modeW
+			okLock := h[recvVarName(fn)+".upstreamCallAckMu"] == modeW
 			r.Check(name+" ack waiter registered before send", okDom && okKey && okLock, posOf(p, reg), name,
 				fmt.Sprintf("registration dominates the %d transmission(s): %v; key from [%s]; locks held: %v", len(sends), okDom, joinLeaves(kl), h))
 		}
@@ -258,7 +258,7 @@ func ruleC16E3(r *Run, le *LockEngine) {
 			}
 		}
 		h := le.HeldAt(snd)
-		_, held := h[fn.Params[0].Name()+"."+tc.mu]
+		_, held := h[recvVarName(fn)+"."+tc.mu]
 		r.Check(name+" dispatch", okKeys && okSame && okOrder && okFound && !held, posOf(p, snd), name,
 			fmt.Sprintf("keys from the message's %s: %v; lookup, delete and delivery use one message: %v; entry deleted whenever found: %v; found edge only: %v; delivered outside the lock: %v", tc.keyField, okKeys, okSame, okOrder, okFound, !held))
 	}
